@@ -39,7 +39,7 @@ def main(src, name):
     finally:
         sh("git -C /repo worktree remove --force %s" % wt)
     if res["confirmed"]:
-        dst = "/verif/seeded/" + name
+        dst = os.environ.get("SEED_DST", "/verif/seeded") + "/" + name
         os.makedirs(dst, exist_ok=True)
         shutil.copy(os.path.join(src, "patch.diff"), dst); shutil.copy(demo, dst)
         meta = {}
